@@ -12,12 +12,13 @@
     adjacent_not_transparent backslash_not_transparent placeholder_text_raises percent_raises
     drop_nested_unbalanced fragments_looked_up_not_extracted
     default_cfg_include_attrs i18n_directives_sort_first contexted_table
-    lookups_subset_extract_partial choose_identity
+    lookups_subset_extract_partial choose_identity msg_lookup_extracted
 -/
 import Genshi.Lemmas.I18nTree
 import Genshi.Lemmas.I18nStarts
 import Genshi.Lemmas.I18nLookups
 import Genshi.Lemmas.I18nChoose
+import Genshi.Lemmas.I18nMsgLookup
 import Genshi.Model.I18nExtract
 namespace Genshi.Props.C19
 open Genshi Genshi.I18n
@@ -161,6 +162,24 @@ example : noMsgList
        .sub [.other ['i','f'], .ctxt ['m']] [.start ⟨[], ['b']⟩ [], .text ['x', '1'], .end_ ⟨[], ['b']⟩],
        .end_ ⟨[], ['p']⟩]).map Lookup.msgid = [['T','i','p'], ['H','i'], ['x','1']] := by
   refine ⟨by decide +kernel, by decide +kernel⟩
+
+/-- **lookups_subset_extract, message directives.**  For `<t i18n:msg="ps">content</t>` whose
+    content holds no nested directive — any events otherwise, any catalogue, context and skip
+    depth: the message id `MsgDirective.__call__` looks up for the stream the translation pass
+    hands on is among the ids `MsgDirective.extract` reports for the template's own stream
+    (the pass runs with `translate_text=False` there and only touches attributes; both
+    directives then fill the same buffer). -/
+theorem msg_lookup_extracted (cfg : Cfg) (cat : Catalog) (ctx : Ctx) (ta : Bool) (skip : Nat)
+    (ps : List Str) (st : Bool) (cs xs : List Str) (t t' : QName) (a : TAttrs) (mid : List TEvent)
+    (hmid : noSubList mid = true) (id : Str)
+    (h : msgId ps (trList cfg cat ctx false ta skip (.start t a :: (mid ++ [.end_ t']))) = .ok (some id)) :
+    ∃ ms, msgExtract cfg ps st cs xs (.start t a :: (mid ++ [.end_ t'])) = .ok ms ∧ id ∈ idsOf ms :=
+  Genshi.I18n.msg_lookup_extracted cfg cat ctx ta skip ps st cs xs t t' a mid hmid id h
+
+example : msgId [] (trList Cfg.default ⟨fun _ _ s => s ++ ['!']⟩ [] false true 0
+      [.start ⟨[], ['p']⟩ [(⟨[], ['t','i','t','l','e']⟩, .str ['T'])], .text ['H','i',' '],
+       .start ⟨[], ['b']⟩ [], .text ['x'], .end_ ⟨[], ['b']⟩, .end_ ⟨[], ['p']⟩]) =
+    .ok (some ['H','i',' ','[','1',':','x',']']) := by decide +kernel
 
 /-! ## the message format: `parse_msg`, `MessageBuffer`, `MsgDirective` -/
 
